@@ -441,6 +441,85 @@ fn run_drop_case(line: &str) -> String {
     )
 }
 
+/// The executor and another source ready in ONE batch (C10): the other source's callback wakes task X while the wake of task Y is what made
+/// the executor ready. Both must be polled, and every LATER wake / schedule must still reach the executor. Single-threaded.
+/// Case: `other_first` | `exec_first` (which of the two became ready first). Output: x=<polls> y=<polls> z=<polls>; wanted x=3 y=2 z=1
+mod mix {
+    use std::cell::{Cell, RefCell};
+    use std::future::Future;
+    use std::pin::Pin;
+    use std::rc::Rc;
+    use std::task::{Context, Poll, Waker};
+    pub struct Pending {
+        pub polls: Rc<Cell<u32>>,
+        pub waker: Rc<RefCell<Option<Waker>>>,
+    }
+    impl Future for Pending {
+        type Output = ();
+        fn poll(self: Pin<&mut Self>, cx: &mut Context<'_>) -> Poll<()> {
+            self.polls.set(self.polls.get() + 1);
+            *self.waker.borrow_mut() = Some(cx.waker().clone());
+            Poll::Pending
+        }
+    }
+    pub fn task() -> (Rc<Cell<u32>>, Rc<RefCell<Option<Waker>>>, Pending) {
+        let polls = Rc::new(Cell::new(0));
+        let waker = Rc::new(RefCell::new(None));
+        (polls.clone(), waker.clone(), Pending { polls, waker })
+    }
+    pub fn wake(w: &Rc<RefCell<Option<Waker>>>) {
+        if let Some(w) = w.borrow().as_ref() {
+            w.wake_by_ref();
+        }
+    }
+}
+
+fn run_mix_case(line: &str) -> String {
+    let other_first = line.trim() == "other_first";
+    let mut event_loop: EventLoop<'static, ()> = EventLoop::try_new().expect("loop");
+    let handle = event_loop.handle();
+    let (exec, sched) = executor::<()>().expect("executor");
+    let (xp, xw, xf) = mix::task();
+    let (yp, yw, yf) = mix::task();
+    let (ping, ping_source) = calloop::ping::make_ping().expect("ping");
+    let xw2 = xw.clone();
+    handle.insert_source(ping_source, move |(), &mut (), _| mix::wake(&xw2)).expect("insert ping");
+    handle.insert_source(exec, |(), &mut (), _| ()).expect("insert executor");
+    sched.schedule(xf).expect("schedule");
+    sched.schedule(yf).expect("schedule");
+    for _ in 0..2 {
+        let _ = event_loop.dispatch(Some(Duration::ZERO), &mut ());
+    }
+    if other_first {
+        ping.ping();
+        mix::wake(&yw);
+    } else {
+        mix::wake(&yw);
+        ping.ping();
+    }
+    for _ in 0..2 {
+        let _ = event_loop.dispatch(Some(Duration::ZERO), &mut ());
+    }
+    // the executor is idle again: a later wake, and a freshly scheduled future, must still get through
+    mix::wake(&xw);
+    for _ in 0..3 {
+        let _ = event_loop.dispatch(Some(Duration::ZERO), &mut ());
+    }
+    let (zp, _zw, zf) = mix::task();
+    sched.schedule(zf).expect("schedule");
+    for _ in 0..3 {
+        let _ = event_loop.dispatch(Some(Duration::ZERO), &mut ());
+    }
+    format!("x={} y={} z={}", xp.get(), yp.get(), zp.get())
+}
+
+pub fn run_mix() {
+    crate::for_each_line(|l| {
+        let r = std::panic::catch_unwind(|| run_mix_case(l)).unwrap_or_else(|_| "PANIC".to_string());
+        println!("{}", r);
+    });
+}
+
 pub fn run_drop() {
     crate::for_each_line(|l| {
         let r = std::panic::catch_unwind(|| run_drop_case(l)).unwrap_or_else(|_| "PANIC".to_string());
